@@ -56,6 +56,11 @@ CLAIMED = {
         "wf8 sso_steps = true is re-proved by vm_compute on the chain go2v extracts from sso.go on every run. The model is run inside Coq on the abstract inputs of "
         "generated requests and must reproduce reply class, status, target, RelayState, InResponseTo and CreateAuthRequest arguments of the real handler; "
         "an independent Go oracle counts persists and messages per request."),
+ "C09": dict(ref="5 C09", technique="Rocq/Coq proof that the Panicked outcome of each endpoint model is unreachable + exhaustive structural-edit harness with panic recovery + in-Coq correspondence (SSO)",
+   text="C09_sso / _callback / _logout / _attrquery: each endpoint model returns a distinguished Panicked outcome where the Go code would dereference an unset pointer, and it is proved unreachable "
+        "for every request and storage answer on the chains go2v extracts. Panics inside encoding/xml, etree, goxmldsig, x509 and the SigAlg type assertions are outside the models: the harness "
+        "enumerates every single (thorough: every pairwise) structural edit of full AuthnRequest / LogoutRequest / AttributeQuery / SP-metadata documents, SigAlg x key type, routes x methods, "
+        "storage faults and byte mutations and recovers panics around every endpoint and NewServiceProvider. partial: no coverage-guided fuzzing of the third-party decoders."),
  "C16": dict(ref="5 C16", technique="Rocq/Coq proof about go2v-generated Gallina of GetAcsUrlAndBindingForResponse + exhaustive correspondence",
    text="C16_bridge/_refines/_deterministic/_member are proved for all lists about the Gallina function go2v regenerates from sso.go on every run; "
         "the generated function is evaluated inside Coq on sampled and malformed inputs against the exported Go function; every list up to length 3 "
